@@ -10,6 +10,7 @@ import (
 	"testing"
 
 	"github.com/cometbft/cometbft/crypto"
+	"github.com/google/uuid"
 
 	sdk "github.com/cosmos/cosmos-sdk/types"
 	sdkerrors "github.com/cosmos/cosmos-sdk/types/errors"
@@ -259,6 +260,16 @@ func (e *nameEnv) exec(op string) string {
 			return "err:basic"
 		}
 		return e.initGenesis(gs)
+	case ws[0] == "export" && len(ws) == 1:
+		return Guard(func() string {
+			gs := e.app.NameKeeper.ExportGenesis(e.ctx)
+			var rs []string
+			for _, r := range gs.Bindings {
+				rs = append(rs, e.recStr(r))
+			}
+			sort.Strings(rs)
+			return "ok " + JoinOr(rs, ",")
+		})
 	case ws[0] == "rlookup" && len(ws) == 2:
 		return Guard(func() string {
 			resp, err := e.app.NameKeeper.ReverseLookup(e.ctx, &nametypes.QueryReverseLookupRequest{Address: e.a(ws[1])})
@@ -395,6 +406,69 @@ func namePartner(r *RNG, name string, minLen int) string {
 	return ""
 }
 
+// nameUUIDPool: the uuids the generators draw from (few, so that different spellings of one uuid meet
+// in a history).
+var nameUUIDPool = []string{nameUUID, "6443a1e8-ec9b-4ff1-b200-d639424bcba4", "00000000-0000-4000-8000-00000000000a", "ffffffff-ffff-5fff-bfff-fffffffffff0"}
+
+// nameUUIDForms returns the spellings of a uuid that uuid.Parse (hence ValidateNameSegment)
+// accepts and NormalizeName leaves alone: each is a DIFFERENT valid name segment.
+func nameUUIDForms(u string) []string {
+	return []string{u, strings.ReplaceAll(u, "-", ""), "{" + u + "}", "urn:uuid:" + u, "x" + u + "y"}
+}
+
+func nameUUIDSeg(r *RNG) string {
+	f := nameUUIDForms(Pick(r, nameUUIDPool))
+	if r.Chance(50) {
+		return f[0]
+	}
+	return Pick(r, f)
+}
+
+// nameRespell rewrites one uuid segment of the name in another accepted spelling of the same uuid
+// (a different valid name with a different key pre-image), or returns "" when the name has none.
+func nameRespell(r *RNG, name string) string {
+	segs := strings.Split(name, ".")
+	var at []int
+	for i, sg := range segs {
+		if _, err := uuid.Parse(sg); err == nil {
+			at = append(at, i)
+		}
+	}
+	if len(at) == 0 {
+		return ""
+	}
+	i := Pick(r, at)
+	id, _ := uuid.Parse(segs[i])
+	for try := 0; try < 6; try++ {
+		if f := Pick(r, nameUUIDForms(id.String())); f != segs[i] {
+			segs[i] = f
+			return strings.Join(segs, ".")
+		}
+	}
+	return ""
+}
+
+// nameDashVariant drops the dash of one dashed (non-uuid) segment: another valid name.
+func nameDashVariant(name string) string {
+	segs := strings.Split(name, ".")
+	for i, sg := range segs {
+		if _, err := uuid.Parse(sg); err != nil && strings.Count(sg, "-") == 1 && len(sg) > 2 {
+			segs[i] = strings.Replace(sg, "-", "", 1)
+			return strings.Join(segs, ".")
+		}
+	}
+	return ""
+}
+
+// nameLookalike returns a different valid name that a "canonicalising" key derivation could
+// confuse with the given one (uuid respelled, dash dropped), or "".
+func nameLookalike(r *RNG, name string) string {
+	if v := nameRespell(r, name); v != "" {
+		return v
+	}
+	return nameDashVariant(name)
+}
+
 type nameGen struct {
 	e   *nameEnv
 	r   *RNG
@@ -409,6 +483,10 @@ func (g *nameGen) emit(op string) string {
 }
 
 func (g *nameGen) seg() string {
+	if g.r.Chance(7) {
+		g.out.Count("segment:uuid")
+		return nameUUIDSeg(g.r)
+	}
 	if g.r.Chance(8) {
 		return Pick(g.r, nameOddSegs)
 	}
@@ -700,6 +778,18 @@ func (g *nameGen) history() {
 					g.out.Count("bind:aimed-at-collision")
 				}
 			}
+			if len(recs) > 0 && r.Chance(10) {
+				// aim at another spelling of an existing name (uuid segment respelled, dash dropped), as
+				// the bound name or as the parent
+				if v := nameLookalike(r, Pick(r, recs).Name); v != "" {
+					if i := strings.Index(v, "."); i >= 0 && r.Chance(50) {
+						child, pn = v[:i], v[i+1:]
+					} else {
+						pn = v
+					}
+					g.out.Count("bind:aimed-at-lookalike")
+				}
+			}
 			target = child + "." + pn
 			op = fmt.Sprintf("bind %s %s %s %s %s", nameEnc(g.variant(pn)), g.sp(signer, 7), nameEnc(child), g.sp(g.anyAddr(), 7), nameBoolStr(r.Bool()))
 		case kind < 63: // modify
@@ -712,6 +802,12 @@ func (g *nameGen) history() {
 					if pt := namePartner(r, n, g.min); pt != "" {
 						n = pt
 						g.out.Count("modify:aimed-at-collision")
+					}
+				}
+				if r.Chance(10) {
+					if v := nameLookalike(r, n); v != "" {
+						n = v
+						g.out.Count("modify:aimed-at-lookalike")
 					}
 				}
 			} else {
@@ -756,6 +852,12 @@ func (g *nameGen) history() {
 						g.out.Count("delete:aimed-at-collision")
 					}
 				}
+				if r.Chance(10) {
+					if v := nameLookalike(r, n); v != "" {
+						n = v
+						g.out.Count("delete:aimed-at-lookalike")
+					}
+				}
 			} else {
 				n = g.seg()
 				signer = g.anyAddr()
@@ -769,6 +871,11 @@ func (g *nameGen) history() {
 				if r.Chance(40) {
 					if pt := namePartner(r, n, g.min); pt != "" {
 						n = pt
+					}
+				}
+				if r.Chance(25) {
+					if v := nameLookalike(r, n); v != "" {
+						n = v
 					}
 				}
 			}
@@ -810,6 +917,24 @@ func (g *nameGen) history() {
 				}
 			}
 		}
+		if r.Chance(25) {
+			// another spelling of a bound name is another name: it resolves to its own record or not at all
+			var vs []string
+			for _, rec := range e.records() {
+				if v := nameLookalike(r, rec.Name); v != "" {
+					vs = append(vs, v)
+				}
+			}
+			if len(vs) > 0 {
+				res := g.emit("resolve " + nameEnc(Pick(r, vs)))
+				g.out.Count("resolve-lookalike:" + strings.Fields(res)[0])
+			}
+		}
+	}
+	// ExportGenesis is a third listing of the records: it must agree with the dump above
+	if r.Chance(50) {
+		res := g.emit("export")
+		g.out.Count("export:" + strings.Fields(res)[0])
 	}
 	g.out.Count(fmt.Sprintf("final-records:%d", minInt(len(e.records()), 12)))
 }
@@ -1072,6 +1197,35 @@ func driveNameKey(t *testing.T, rng *RNG, n int, out *Out) {
 			out.Count("op:knorm")
 			out.Count("knorm:" + strings.Fields(res)[0])
 		default:
+			if rng.Chance(12) {
+				// two spellings of one uuid (or a dashed segment and its dash-less form) inside otherwise
+				// equal names: different valid names, so different keys
+				sg := nameUUIDSeg(rng)
+				kind := "uuid-respelled"
+				if rng.Chance(20) {
+					sg = nameRandWord(rng, alpha, 1+rng.Intn(3)) + "-" + nameRandWord(rng, alpha, 1+rng.Intn(3))
+					kind = "dash-dropped"
+				}
+				parts := []string{sg}
+				for k := rng.Intn(3); k > 0; k-- {
+					if w := nameRandWord(rng, alpha, 2+rng.Intn(2)); rng.Bool() {
+						parts = append(parts, w)
+					} else {
+						parts = append([]string{w}, parts...)
+					}
+				}
+				n1 := strings.Join(parts, ".")
+				if n2 := nameLookalike(rng, n1); n2 != "" {
+					if rng.Bool() {
+						n1, n2 = n2, n1
+					}
+					res := emit(fmt.Sprintf("pair 2 32 16 %s %s", nameEnc(n1), nameEnc(n2)))
+					out.Count("pair:kind=" + kind)
+					out.Count("op:pair")
+					out.Count("pair:" + res)
+					continue
+				}
+			}
 			minLen := 1 + rng.Intn(2)
 			n1 := nameRandName(rng, alpha, minLen, 3, 3)
 			var n2 string
